@@ -4,6 +4,8 @@ NEXT Next
 CONSTANTS
   EpochFmt = TRUE
   KeepLB = FALSE
+  BestTrain = FALSE
+  Params <- FsP0
   MaxE = 4
   MaxCrash = 2
   Levels = {1, 2, 3}
